@@ -421,6 +421,11 @@ def _build_registry():
                               ("ShortLinkControl", "etsi.layer2.pdu.short_link_control:ShortLinkControl", "pdu:slc"), ("SlotType", "etsi.layer2.pdu.slot_type:SlotType", "bits:20"),
                               ("UDPIPv4CompressedHeader", "etsi.layer3.pdu.udp_ipv4_compressed_header:UDPIPv4CompressedHeader", "bits:40-200")):
         E(f"{_nm}(from parsed attributes, seeded defaults)", (lambda p: lambda b, om: _reconstruct(L(p).from_bits(b), om))(_path), _spec, "int:0:65535")
+    for _nm, _path, _spec in (("DataHeader", "etsi.layer2.pdu.data_header:DataHeader", "pdu:dh"), ("CSBK", "etsi.layer2.pdu.csbk:CSBK", "pdu:csbk"),
+                              ("FullLinkControl", "etsi.layer2.pdu.full_link_control:FullLinkControl", "pdu:flc"), ("ShortLinkControl", "etsi.layer2.pdu.short_link_control:ShortLinkControl", "pdu:slc"),
+                              ("SlotType", "etsi.layer2.pdu.slot_type:SlotType", "bits:20")):
+        E(f"{_nm}: parse, change a field, serialise (with / without an earlier serialisation)",
+          (lambda p: lambda b, k: _modify_after_parse(L(p).from_bits(b.copy()), L(p).from_bits(b.copy()), k))(_path), _spec, "int:0:63")
     for _nm, _mod in (("Rate12Data", "etsi.layer2.pdu.rate12_data"), ("Rate34Data", "etsi.layer2.pdu.rate34_data"), ("Rate1Data", "etsi.layer2.pdu.rate1_data")):
         E(f"{_nm}(from parsed attributes, seeded defaults)",
           (lambda m, n: lambda b, t, om: _reconstruct(L(f"{m}:{n}").from_bits_typed(b, list(L(f"{m}:{n}Types"))[t % len(list(L(f"{m}:{n}Types")))]), om))(_mod, _nm),
@@ -450,6 +455,35 @@ def _build_registry():
 
 class ArgumentObjectChanged(Exception):
     """raised by composite entries when a library call changed an object (or buffer) that was passed to it as an argument"""
+
+
+class SerialisationDependsOnEarlierCall(Exception):
+    """raised by the composite entry below when serialising an object gives another result because it was serialised before"""
+
+
+def _modify_after_parse(obj_a, obj_b, pick):
+    """an application that forwards a PDU with one field changed: parse, (variant A: serialise once, e.g. for a log line,) assign ONE integer attribute, let the
+    object recompute its check value through its own public `calculate_*` method if it has one, serialise.  Variant A and variant B (no earlier serialisation)
+    start from two parses of the same bits and must serialise to the same bits: an encode may not depend on an earlier encode of the same object"""
+    ser = "as_bits" if hasattr(obj_a, "as_bits") else "as_bytes"
+    getattr(obj_a, ser)()  # variant A only: the early serialisation
+    names = sorted(k for k, v in vars(obj_b).items() if isinstance(v, int) and not isinstance(v, bool) and not k.startswith("_") and "crc" not in k.lower() and "parity" not in k.lower())
+    if not names:
+        raise LookupError("no integer field to change")
+    name = names[pick % len(names)]
+    outs = []
+    for o in (obj_a, obj_b):
+        setattr(o, name, getattr(o, name) ^ 1)
+        for m in sorted(dir(type(o))):
+            if m.startswith("calculate_") and callable(getattr(o, m, None)):
+                try:
+                    getattr(o, m)()
+                except TypeError:
+                    pass
+        outs.append(canon(getattr(o, ser)()))
+    if outs[0] != outs[1]:
+        raise SerialisationDependsOnEarlierCall(f"{type(obj_a).__name__}.{name} changed after parsing: serialised {outs[0]} when the object had been serialised before, {outs[1]} when not")
+    return [name, outs[1]]
 
 
 RECON_NEVER_OMIT = set()  # (class name, parameter) pairs whose default is never the thing compared; empty since D17 was repaired
@@ -1512,6 +1546,9 @@ class C19(Check):
                 earlier = sorted(set(prev_entries))[-6:]
                 res.violate("C19.history-dependent-result", name, f"call #{i} {name}({core.dumps(op['args'])[:160]}) returned {core.dumps(got)[:220]} in this history, "
                             f"but {core.dumps(want)[:220]} when evaluated alone in a pristine process (earlier entry points in this process: {len(set(prev_entries))})", at=i)
+            if got[:2] == ["raised", "SerialisationDependsOnEarlierCall"]:
+                res.violate("C19.history-dependent-result", name, f"call #{i} {name}({core.dumps(op['args'])[:160]}): serialising the object after a field change gives another result when "
+                            f"the object had been serialised once before (reported by the composite entry point itself)", at=i)
             if got[:2] == ["raised", "ArgumentObjectChanged"]:
                 res.violate("C19.argument-buffer-modified", name, f"call #{i} {name}({core.dumps(op['args'])[:160]}): a library call changed an object it was given as an argument "
                             f"(reported by the composite entry point itself)", at=i)
